@@ -624,3 +624,50 @@ def _is_plus(body, du, o):
             continue
         return False
     return False
+
+
+@RS.rule('C05.R1b', 'K-PASS', 'a directory entry is skipped only by the three reviewed tests (".", "..", pattern mismatch): no other condition can drop a matching name')
+def r1b(cx):
+    import mirq as Q
+    import re as _re
+    F = cx.F
+    fn = [f for f in F.bodies if 'SearchEnv' in f and f.endswith('::search_dir')]
+    cx.require(len(fn) == 1, 'SearchEnv::search_dir not found')
+    b = F.bodies[fn[0]]
+    cx.fn(b.fn)
+    du = Q.DefUse(b)
+    pushes = [(blk, t) for blk, t in Q.find_calls(b, [_re.compile(r'::push_component$')])
+              if 'const true' in [str(x) for x in Q.arg_names(b, du, t)]]
+    cx.require(len(pushes) == 1, 'the push_component(.., true, ..) call was not found')
+    pblk, pt = pushes[0]
+    nes = [(blk, t) for blk, t in Q.find_calls(b, [_re.compile(r'PartialEq<.*>::(ne|eq)$'), _re.compile(r'PartialEq.*::(ne|eq)$')])
+           if b.dominates(blk, pblk)]
+    matches = [(blk, t) for blk, t in Q.find_calls(b, ['yash_fnmatch::Pattern::is_match']) if b.dominates(blk, pblk)]
+    cx.require(nes and matches, 'the entry tests (name != "." / ".." and is_match) were not found before the push')
+    start = min(blk for blk, _ in nes)
+    nexts = [blk for blk, t in Q.find_calls(b, [_re.compile(r'::Dir::next$'), _re.compile(r'Dir>::next$')])]
+    cx.require(nexts, 'Dir::next not found in search_dir')
+    allowed = set()
+    for u in b.live_blocks():
+        ec = Q.edge_condition(F, b, du, u)
+        if not ec:
+            continue
+        org, labels = ec
+        for tgt, labs in labels.items():
+            for lab in labs:
+                if org['k'] == 'call' and Q.callee_is(org['t'], [_re.compile(r'PartialEq.*::ne$')]) and lab == ('bool', False):
+                    allowed.add((u, tgt))
+                if org['k'] == 'call' and Q.callee_is(org['t'], [_re.compile(r'PartialEq.*::eq$')]) and lab == ('bool', True):
+                    allowed.add((u, tgt))
+                if org['k'] == 'call' and Q.callee_is(org['t'], ['yash_fnmatch::Pattern::is_match']) and lab == ('bool', False):
+                    allowed.add((u, tgt))
+                if org['k'] == 'discr' and lab[0] == 'variant' and lab[1] in ('None', 'Err'):
+                    allowed.add((u, tgt))
+    goals = set(nexts) | set(b.return_blocks())
+    cx.site('%s: from the first entry test (bb%d) every path that avoids the push passes a reviewed rejection edge (%d edges)'
+            % (b.fn, start, len(allowed)))
+    p = b.shortest_path(start, goals, removed={pblk}, removed_edges=allowed)
+    if p is not None:
+        cx.violation(b.root, 'entry-dropped-by-unreviewed-test', 'a directory entry can be skipped without being ".", ".." or a pattern mismatch: '
+                     'an additional filter in the scan loop makes pathname expansion omit existing matching names (e.g. dot files '
+                     'when the leading period of the pattern is quoted)', loc=b.loc(b.term(p[min(len(p) - 1, 1)])), path=Q.render_path(b, p))
